@@ -420,6 +420,96 @@ where
 
     let alphas = challenger.get_n_challenges(config.num_challenges);
 
+    #[cfg(feature = "verif_hooks")]
+    if crate::verif_hooks::with_knobs(|k| k.forge_quotient_after_zeta) == Some(true)
+        && ctl_data.is_none()
+        && stark.quotient_degree_factor() > 0
+    {
+        // No quotient cap is observed before `zeta` is drawn.
+        let zeta = challenger.get_extension_challenge::<D>();
+        let no_quotient = StarkOpeningSet::new(
+            zeta,
+            g,
+            trace_commitment,
+            auxiliary_polys_commitment.as_ref(),
+            None,
+            stark.num_lookup_helper_columns(config),
+            false,
+            &num_ctl_polys,
+        );
+        let vanishing = compute_eval_vanishing_poly::<F, S, D>(
+            stark,
+            &no_quotient,
+            None,
+            lookup_challenges.as_ref(),
+            &lookups,
+            public_inputs,
+            alphas.clone(),
+            zeta,
+            degree_bits,
+            num_lookup_columns,
+        );
+        let z_h_zeta = zeta.exp_power_of_2(degree_bits) - F::Extension::ONE;
+        use plonky2::field::extension::FieldExtension;
+        let zeta_arr = zeta.to_basefield_array();
+        let mut chunks = Vec::new();
+        for v in vanishing {
+            // base-field line a + b*X with value v / Z_H(zeta) at zeta
+            let t = (v / z_h_zeta).to_basefield_array();
+            let b = t[1] / zeta_arr[1];
+            let a = t[0] - b * zeta_arr[0];
+            let mut first = vec![F::ZERO; degree];
+            first[0] = a;
+            first[1] = b;
+            chunks.push(PolynomialCoeffs::new(first));
+            for _ in 1..stark.quotient_degree_factor() {
+                chunks.push(PolynomialCoeffs::new(vec![F::ZERO; degree]));
+            }
+        }
+        let quotient_commitment = PolynomialBatch::<F, C, D>::from_coeffs(
+            chunks,
+            rate_bits,
+            false,
+            config.fri_config.cap_height,
+            timing,
+            None,
+        );
+        let openings = StarkOpeningSet::new(
+            zeta,
+            g,
+            trace_commitment,
+            auxiliary_polys_commitment.as_ref(),
+            Some(&quotient_commitment),
+            stark.num_lookup_helper_columns(config),
+            false,
+            &num_ctl_polys,
+        );
+        challenger.observe_openings(&openings.to_fri_openings());
+        let initial_merkle_trees = once(trace_commitment)
+            .chain(&auxiliary_polys_commitment)
+            .chain(once(&quotient_commitment))
+            .collect_vec();
+        let opening_proof = PolynomialBatch::prove_openings(
+            &stark.fri_instance(zeta, g, 0, vec![], config),
+            &initial_merkle_trees,
+            challenger,
+            &fri_params,
+            final_poly_coeff_len,
+            max_num_query_steps,
+            timing,
+        );
+        return Ok(StarkProofWithPublicInputs {
+            proof: StarkProof {
+                trace_cap: trace_commitment.merkle_tree.cap.clone(),
+                auxiliary_polys_cap,
+                quotient_polys_cap: None,
+                openings,
+                opening_proof,
+            },
+            public_inputs: public_inputs.to_vec(),
+        });
+    }
+
     let quotient_polys = timed!(
         timing,
         "compute quotient polys",
